@@ -5,7 +5,9 @@
 // (allocation serial numbers); the orchestrator renumbers them by first
 // appearance on both sides before comparing.
 #include "drv_common.h"
+#include <chrono>
 #include <functional>
+#include <thread>
 
 int main(int argc, char** argv) {
     if (argc < 2) return 2;
@@ -14,6 +16,8 @@ int main(int argc, char** argv) {
     vtrack::enable();
     Token token{};
     bool have_token = false;
+    std::vector<std::pair<const char*, std::string>> held;   // (address, bytes) of values handed out in this session
+    std::vector<std::string> held_st;                        // ... and the storage each came from
     long long base_live = 0, base_bytes = 0;
     std::map<std::pair<std::string, std::string>, std::size_t> want_align;
     std::map<node_version64*, base_node*> nv2node;
@@ -40,6 +44,8 @@ int main(int argc, char** argv) {
                 leave(token);
                 have_token = false;
             }
+            decltype(held)().swap(held);
+            decltype(held_st)().swap(held_st);
             fin();
             nv2node.clear();
             want_align.clear();
@@ -51,20 +57,40 @@ int main(int argc, char** argv) {
         } else if (op == "enter") {
             status s = enter(token);
             have_token = (s == status::OK);
+            decltype(held)().swap(held);
+            decltype(held_st)().swap(held_st);
             out << "enter " << s;
+        } else if (op == "sleep") {
+            std::this_thread::sleep_for(std::chrono::milliseconds(std::stoul(tk())));
+            out << "sleep";
         } else if (op == "leave") {
+            // what a get handed out inside this session must still be there, unchanged, until leave (C07 / C15)
+            std::size_t changed = 0;
+            for (auto& h : held)
+                if (std::memcmp(h.first, h.second.data(), h.second.size()) != 0) ++changed;
+            decltype(held)().swap(held);       // the driver's own copies must not count as library memory
+            decltype(held_st)().swap(held_st);
             status s = leave(token);
             have_token = false;
             out << "leave " << s;
+            if (changed != 0) out << " UNSTABLE=" << changed;
         } else if (op == "destroy") {
             out << "destroy " << destroy();
             nv2node.clear();
+            // destroy() and delete_storage() release their trees at once (not through the epoch scheme)
+            decltype(held)().swap(held);
+            decltype(held_st)().swap(held_st);
         } else if (op == "create") {
             std::string s = unhex(tk());
             out << "create " << create_storage(s);
         } else if (op == "dropst") {
             std::string s = unhex(tk());
             out << "dropst " << delete_storage(s);
+            for (std::size_t i = held.size(); i-- > 0;)
+                if (held_st[i] == s) {
+                    held.erase(held.begin() + static_cast<std::ptrdiff_t>(i));
+                    held_st.erase(held_st.begin() + static_cast<std::ptrdiff_t>(i));
+                }
         } else if (op == "find") {
             std::string s = unhex(tk());
             tree_instance* ti{};
@@ -132,6 +158,10 @@ int main(int argc, char** argv) {
                 // out-of-line values live inside a tracked block; inline words are small numbers
                 bool is_ptr = reinterpret_cast<std::uintptr_t>(g.first) > 0x100000000ULL;
                 if (is_ptr) {
+                    if (have_token && g.second != 0) {
+                        held.emplace_back(g.first, std::string(g.first, g.second));
+                        held_st.push_back(st);
+                    }
                     std::size_t al = want_align.count({st, k}) ? want_align[{st, k}] : 1;
                     out << " v=" << tohex(g.first, g.second) << " len=" << g.second << " al="
                         << (reinterpret_cast<std::uintptr_t>(g.first) % (al ? al : 1) == 0);
